@@ -9,7 +9,7 @@ GENERATORS = [
     (hist.g_ideal_curve, 6), (hist.g_nonideal_curve, 9), (hist.g_ideal_process, 10), (hist.g_nonideal_process, 14),
     (hist.g_membrane_method, 8), (hist.g_thermo, 5), (hist.g_composition_convert, 3), (hist.g_permeance_op, 3),
     (hist.g_component_method, 3), (hist.g_program, 2), (hist.g_measurements_from, 4), (hist.g_fit, 9), (hist.g_fit_vle, 1),
-    (hist.g_fn_op, 6), (hist.g_make_curve, 4), (hist.g_curve_metric, 5),
+    (hist.g_fn_op, 6), (hist.g_make_curve, 4), (hist.g_curve_metric, 5), (hist.g_pool_measurements, 2),
 ]
 
 
@@ -92,6 +92,15 @@ def simplifiers(plan):
             return None
 
         fs += [plain_clock, fewer_steps, no_then, drop_optional, drop_optional, drop_optional]
+    fs.append(hist.prune_world)
+
+    def no_new_interp(p):
+        if p.get("new_interpreter_ref"):
+            p["new_interpreter_ref"] = False
+            return p
+        return None
+
+    fs.append(no_new_interp)
     return fs
 
 
